@@ -4,8 +4,11 @@
 package cfg
 
 import (
+	"fmt"
 	"math"
 	"reflect"
+	"sort"
+	"strings"
 
 	"pgregory.net/rapid"
 )
@@ -21,6 +24,9 @@ type Flat struct {
 	URL     string // key "url"
 	IPAddr  int32  // key "ipAddr"
 	MaxTemp int8   // key "maxTemp"
+	// pointer fields inside a flat struct: a nil one is a tombstoned key
+	Opt  *int    `point:"opt"`
+	Note *string // key "note"
 }
 
 // Kid is a child node type (decode only).
@@ -228,6 +234,9 @@ func GenFlat(t *rapid.T, label string) Flat {
 		return Flat{B: Str().Draw(t, label+"OnlyB")}
 	case 2:
 		return Flat{D: true}
+	case 4:
+		z := 0
+		return Flat{Opt: &z} // a pointer to a zero value is not a nil pointer
 	case 3:
 		return Flat{URL: Str().Draw(t, label+"OnlyURL"), IPAddr: int32(rapid.IntRange(0, 1).Draw(t, label+"OnlyIP"))}
 	}
@@ -241,7 +250,26 @@ func GenFlat(t *rapid.T, label string) Flat {
 		URL:     Str().Draw(t, label+"URL"),
 		IPAddr:  int32(intIn(math.MinInt32, math.MaxInt32).Draw(t, label+"IPAddr")),
 		MaxTemp: int8(intIn(math.MinInt8, math.MaxInt8).Draw(t, label+"MaxTemp")),
+
+		Opt:  optInt(t, label+"Opt"),
+		Note: optStr(t, label+"Note"),
 	}
+}
+
+func optInt(t *rapid.T, label string) *int {
+	if rapid.IntRange(0, 2).Draw(t, label+"Nil") == 0 {
+		return nil
+	}
+	v := int(intIn(-maxSafe, maxSafe).Draw(t, label))
+	return &v
+}
+
+func optStr(t *rapid.T, label string) *string {
+	if rapid.IntRange(0, 2).Draw(t, label+"Nil") == 0 {
+		return nil
+	}
+	v := Str().Draw(t, label)
+	return &v
 }
 
 // GenKid draws a child.
@@ -512,6 +540,103 @@ func normalize(v reflect.Value) reflect.Value {
 		return n
 	default:
 		return v
+	}
+}
+
+// Render prints a value with every pointer followed (no addresses), for digests.
+func Render(v any) string {
+	var b strings.Builder
+	render(&b, reflect.ValueOf(v))
+	return b.String()
+}
+
+func render(b *strings.Builder, v reflect.Value) {
+	switch v.Kind() {
+	case reflect.Pointer:
+		if v.IsNil() {
+			b.WriteString("nil")
+			return
+		}
+		b.WriteString("&")
+		render(b, v.Elem())
+	case reflect.Struct:
+		b.WriteString("{")
+		for i := 0; i < v.NumField(); i++ {
+			render(b, v.Field(i))
+			b.WriteString(" ")
+		}
+		b.WriteString("}")
+	case reflect.Slice, reflect.Array:
+		b.WriteString("[")
+		for i := 0; i < v.Len(); i++ {
+			render(b, v.Index(i))
+			b.WriteString(" ")
+		}
+		b.WriteString("]")
+	case reflect.Map:
+		keys := v.MapKeys()
+		sort.Slice(keys, func(i, j int) bool { return keys[i].String() < keys[j].String() })
+		b.WriteString("map[")
+		for _, k := range keys {
+			fmt.Fprintf(b, "%q:", k.String())
+			render(b, v.MapIndex(k))
+			b.WriteString(" ")
+		}
+		b.WriteString("]")
+	default:
+		fmt.Fprintf(b, "%v", v.Interface())
+	}
+}
+
+// EquivNaN is Equiv with "NaN equals NaN" (two decodings of the same points).
+func EquivNaN(a, b any) bool {
+	return eqNaN(normalize(reflect.ValueOf(a)), normalize(reflect.ValueOf(b)))
+}
+
+func eqNaN(a, b reflect.Value) bool {
+	if a.Kind() != b.Kind() {
+		return false
+	}
+	switch a.Kind() {
+	case reflect.Float32, reflect.Float64:
+		x, y := a.Float(), b.Float()
+		return x == y && math.Signbit(x) == math.Signbit(y) || math.IsNaN(x) && math.IsNaN(y)
+	case reflect.Slice, reflect.Array:
+		if a.Kind() == reflect.Slice && a.IsNil() != b.IsNil() || a.Len() != b.Len() {
+			return false
+		}
+		for i := 0; i < a.Len(); i++ {
+			if !eqNaN(a.Index(i), b.Index(i)) {
+				return false
+			}
+		}
+		return true
+	case reflect.Map:
+		if a.IsNil() != b.IsNil() || a.Len() != b.Len() {
+			return false
+		}
+		it := a.MapRange()
+		for it.Next() {
+			bv := b.MapIndex(it.Key())
+			if !bv.IsValid() || !eqNaN(it.Value(), bv) {
+				return false
+			}
+		}
+		return true
+	case reflect.Pointer:
+		if a.IsNil() || b.IsNil() {
+			return a.IsNil() == b.IsNil()
+		}
+		return eqNaN(a.Elem(), b.Elem())
+	case reflect.Struct:
+		for i := 0; i < a.NumField(); i++ {
+			if !eqNaN(a.Field(i), b.Field(i)) {
+				return false
+			}
+		}
+		return true
+	default:
+		return reflect.DeepEqual(a.Interface(), b.Interface())
 	}
 }
 
